@@ -11,6 +11,9 @@ package dns
 // Verify parses the signed message by hand; on any buffer of at least header size it must return an error
 // rather than index out of range.
 //@ func (*SIG).Verify [C18]
+// the key algorithm is refused only if it is none of the signing algorithms (RSASHA1 5, RSASHA1-NSEC3-SHA1 7,
+// RSASHA256 8, RSASHA512 10, ECDSA 13/14, Ed25519 15) or if the key material does not parse
+//@   assert at "return ErrKeyAlg" keyalg: (k.Algorithm != 5 && k.Algorithm != 7 && k.Algorithm != 8 && k.Algorithm != 10 && k.Algorithm != 13 && k.Algorithm != 14 && k.Algorithm != 15) || (called("publicKeyRSA") && callres("publicKeyRSA") == nil) || (called("publicKeyECDSA") && callres("publicKeyECDSA") == nil) || (called("publicKeyED25519") && callres("publicKeyED25519") == nil)
 //@   requires rr != nil && len(buf) >= 12
 //@   stored at "byte((adc - 1) >> 8)," hi: uint16(adc - 1) / 256
 //@   stored at "byte(adc - 1)," lo: uint16(adc - 1) % 256
@@ -46,6 +49,8 @@ package dns
 // can only mean the signed message exceeds 65535 octets.
 //@ func (*SIG).Sign [C18]
 //@   requires rr != nil && m != nil
+// the record is packed with an empty signature field, whatever an earlier use left in rr.Signature
+//@   callsite "PackRR" nosig: len(rr.Signature) == 0
 //@   assume at "off, err := PackRR(rr, buf, len(mbuf), nil, false)" c08: len(mbuf) < len(buf)
 //@   ghost adc0 at "buf = buf[:off:cap(buf)]" buf[10] * 256 + buf[11]
 //@   ghost rd0 at "if len(buf) > int(^uint16(0)) {" buf[len(mbuf) + 9] * 256 + buf[len(mbuf) + 10]
